@@ -96,7 +96,7 @@ def floors(tier):
                          "split.no_marker_empty": 10,
                          "split.source_unchanged": 3500 if q else 15000,
                          "seg.marker_vs_threshold": 8000 if q else 40000,
-                         "extract.inclusive_bounds": 10000},
+                         "extract.inclusive_bounds": 10000, "split.pieces_belong_to_the_caller": 3000},
             "classes": {"no_marker": 10, "first_marked": 1000, "last_marked": 1000, "adjacent_markers": 1000,
                         "all_marked": 10, "single_obs": 2, "trailing_empty_piece": 1000, "via_seg": 1500,
                         "eq_threshold": 200, "nan_value": 200, "all_nan_and": 6, "all_nan_or": 6,
@@ -400,6 +400,32 @@ def _run_split(case, ctx):
     if pieces and not pieces[-1]:
         cls.append("trailing_empty_piece")
     ctx.count("pieces", len(pieces))
+    # aliasing: the pieces belong to the caller, who trims them and appends to them (the observation objects are
+    # shared with the source by design; the LISTS are not): the source must keep its observations, and splitting it
+    # again must give the same pieces
+    from tracklib.core.obs import Obs
+    from tracklib.core.obs_coords import ENUCoords
+    for p in range(npieces):
+        pc = coll.getTrack(p)
+        if pc.size() >= 1 and p % 2 == 0:
+            M.call(pc.removeFirstObs)
+        else:
+            M.call(pc.addObs, Obs(ENUCoords(-1.0, -1.0, -1.0), gen.obstime_from_ms(T0_MS - 5000)))
+    ctx.monitor("split.pieces_belong_to_the_caller")
+    after2 = _snapshot(tr)
+    diff = _snap_diff(before, after2)
+    if diff or tr.size() != n or any(tr.getObs(i) is not src_obs[i] for i in range(n)):
+        return violated({"what": "the source track changed when the caller trimmed / extended the pieces returned by "
+                                 "split()", "changed": diff or ["number / identity of the observations"],
+                         "n": n if n <= 40 else "%d" % n, "markers": markers if n <= 40 else "(long)", "size_now": tr.size()},
+                        sig, nontrivial, cls)
+    coll2 = M.call(split, tr, MK)
+    if M.is_raised(coll2) or coll2.size() != npieces or \
+            any(coll2.getTrack(p).size() != len(pieces[p]) for p in range(npieces)):
+        return violated({"what": "splitting the same track again, after the caller trimmed / extended the first pieces, "
+                                 "gives other pieces", "first": [len(x) for x in pieces][:20],
+                         "second": coll2 if M.is_raised(coll2) else [coll2.getTrack(p).size() for p in range(coll2.size())][:20]},
+                        sig, nontrivial, cls)
     return held(sig, nontrivial, cls)
 
 
